@@ -316,8 +316,9 @@ def family_spec(rng, which=None):
     which = which or rng.choice(["pivot_traffic", "internet_only", "star",
                                  "two_sensitive_one_subnet", "honeypot",
                                  "deny_heavy", "balanced_tree",
-                                 "balanced_tree", "asymmetric"] * 4
-                                + ["many_services", "long_chain"])
+                                 "balanced_tree", "asymmetric"] * 3
+                                + ["many_services", "many_services",
+                                   "long_chain"])
     if which == "asymmetric":
         doc = docgen.gen_doc(rng, shape=rng.choice(["random", "tree"]),
                              max_subnets=4, asym=True, open_firewall=True,
@@ -414,25 +415,43 @@ def balanced_tree_spec(rng):
 
 def many_services_spec(rng):
     """More than 64 services (bit tables, one-hot blocks and name lookups
-    beyond the usual sizes), deny-lists and rules naming the high ones."""
-    doc = docgen.gen_doc(rng, max_subnets=3, max_hosts=2, deny_rate=0.0,
-                         step_limit=None)
+    beyond the usual sizes).  The internet rule admits only low-numbered
+    services, so that an exploit of a high-numbered service can only come
+    from a compromised host - and the targets' deny-lists name exactly those
+    hosts for the high services: the host firewall is the deciding rule."""
+    doc = docgen.gen_doc(rng, shape="chain", max_subnets=2, max_hosts=1,
+                         deny_rate=0.0, step_limit=None, n_public=1)
+    n = len(doc["subnets"])
+    sizes = [3] + [2] * (n - 1)
+    doc["subnets"] = sizes
     srvs = [f"s{i}" for i in range(70)]
     doc["services"] = srvs
-    hosts = doc["host_configurations"]
-    keys = list(hosts)
-    for k, h in hosts.items():
-        h["services"] = rng.sample(srvs, rng.randint(1, 70))
-        if rng.random() < 0.7:
-            h["firewall"] = {rng.choice(keys): rng.sample(
-                srvs[60:], rng.randint(1, 10))}
+    addrs = [(s + 1, h) for s in range(n) for h in range(sizes[s])]
+    keys = [docgen.A(*a) for a in addrs]
+    hi = srvs[62:]
+    hosts = {}
+    for k in keys:
+        hosts[k] = {"os": doc["os"][0], "services": list(srvs),
+                    "processes": list(doc["processes"]),
+                    "firewall": {src: rng.sample(hi, rng.randint(
+                        len(hi) - 2, len(hi))) for src in keys}}
+    doc["host_configurations"] = hosts
+    doc["sensitive_hosts"] = {keys[-1]: 100}
     doc["exploits"] = {
-        f"e{i}": {"service": rng.choice(srvs[60:] if i % 2 else srvs),
-                  "os": "none", "prob": rng.choice([1.0, 0.8]),
-                  "cost": 1, "access": rng.choice(["user", "root"])}
-        for i in range(4)}
-    for k in doc["firewall"]:
-        doc["firewall"][k] = rng.sample(srvs, rng.randint(30, 70))
+        "e_lo": {"service": "s1", "os": "none", "prob": 1.0, "cost": 1,
+                 "access": "root"},
+        "e_hi_a": {"service": rng.choice(hi[2:]), "os": "none",
+                   "prob": rng.choice([1.0, 0.8]), "cost": 1,
+                   "access": "root"},
+        "e_hi_b": {"service": rng.choice(hi[2:]), "os": "none", "prob": 1.0,
+                   "cost": 2, "access": "user"}}
+    T = doc["topology"]
+    fw = {}
+    for i in range(n + 1):
+        for j in range(n + 1):
+            if i != j and T[i][j] == 1:
+                fw[docgen.A(i, j)] = srvs[:10] if i == 0 else list(srvs)
+    doc["firewall"] = fw
     return {"kind": "yaml", "text": docgen.emit(doc, rng),
             "family": "many_services"}
 
